@@ -2569,6 +2569,13 @@ def check_pytensor(ctx: Ctx, ir, cases: list | None = None) -> None:
             continue
         ctx.count(f"pyt_hyp_leaves_wf={mo['leaves_wf']}")
         m = mo["r"]
+        # the decidable hypotheses of the inference theorems, evaluated by the driver; when one holds, the model's
+        # answer must be the theorem's conclusion (and the real outcome is compared with the model's below)
+        for hyp, want in (("hyp_nested_float", ("numeric", 11)), ("hyp_int64", ("numeric", 7)), ("hyp_text", ("str", None)), ("hyp_ragged", ("raised", None))):
+            if mo.get(hyp):
+                ctx.count(f"pyt_thm_{hyp}")
+                if m["kind"] != want[0] or (want[1] is not None and m.get("d") != want[1]):
+                    ctx.disagree(f"ir.tensor(py): the driver's answer contradicts the theorem behind {hyp}", cj, m, want)
         if m["kind"] == "unmodelled":
             ctx.count("pyt_unmodelled_conversion")
             continue
